@@ -64,6 +64,14 @@ def csMonitor (env : CsEnv) (cfg : CsCfg) (req : CsReq) (obs : Resp) : Option St
     some s!"cs: unverified request answered {obs.status}, not an error status"
   else none
 
+/-- the converse for the signature gate: a request whose signature covers it (a checked method, no X-Request-Uri) is not
+refused BY THE GATE. 403 is the gate's own answer; a verified request can still end in 400 further down (a malformed
+encrypted body), which is not the gate's verdict. -/
+def csCompleteMonitor (env : CsEnv) (cfg : CsCfg) (req : CsReq) (obs : Resp) : Option String :=
+  if gatedMethods.contains req.method ∧ req.uri.isEmpty ∧ csCovers env cfg req ∧ !obs.ran ∧ !obs.panic ∧ obs.status = 403 then
+    some "cs: a request whose signature covers its timestamp, method, path, query and body under a configured key was refused (403)"
+  else none
+
 /-- "covers exactly the request's … body digest": when the handler runs on an unencrypted request, the body it reads
 is the body whose digest was signed — all the bytes the request carries, whatever its framing (declared length,
 unknown length / chunked, no body). For `type = 1` the body is ciphertext; that is `cryptMonitor`'s business. -/
